@@ -2,6 +2,9 @@ mod checks;
 mod choice;
 mod fun_ast;
 mod gen_fun;
+mod mach_axcut;
+mod mach_core;
+mod tc_axcut;
 mod native;
 mod pipeline;
 mod ref_fun;
